@@ -44,6 +44,7 @@ SUBJ = {
  "F55": "the CloudFormation console reporter hit unreachable!() for a resource whose name starts with",
  "F57": "a list index beyond the i32 range wrapped around",
  "F58": "JUnit output was not well-formed XML when a quoted value held control characters",
+ "F59": "rulegen wrote floats with a positive exponent",
  "F31": "`test` listed the rules of a test case in a different order",
 }
 log = subprocess.run(["git", "-C", "/repo", "log", "--format=%h %s"], capture_output=True, text=True).stdout.splitlines()
